@@ -170,9 +170,11 @@ E5Build(p) ==
                                 Do(<<guard(blk("k")), Asg("k", E5Vals[p[5]]), Asg("n", Bin("+", Var("n"), I(1)))>>)),
                           Log(I(5))>>)
 
-ErrQuick == E5Params \cup E6Params \cup E1Params({4, 5}, SmallCatch \cup {4}, SmallFin) \cup E4Params({1}) \cup E1Params({1}, Idx(Catches), Idx(Fins)) \cup E1Params({2}, SmallCatch, SmallFin)
+\* (operators with a dummy argument: TLC evaluates every zero-arity definition when it starts, and these sets are big;
+\*  only the MC_* module of the configuration that needs one evaluates it)
+ErrQuick(u) == E5Params \cup E6Params \cup E1Params({4, 5}, SmallCatch \cup {4}, SmallFin) \cup E4Params({1}) \cup E1Params({1}, Idx(Catches), Idx(Fins)) \cup E1Params({2}, SmallCatch, SmallFin)
             \cup E3Params \cup { p \in E2Params({1}) : p[8] \in {1, 2} /\ p[10] = 1 }
-ErrThorough == E5Params \cup E6Params \cup E1Params({4, 5}, Idx(Catches), Idx(Fins)) \cup E2Params({4, 5}) \cup E4Params({1, 2, 3}) \cup E1Params({1, 2, 3}, Idx(Catches), Idx(Fins)) \cup E3Params \cup E2Params({1, 2, 3})
+ErrThorough(u) == E5Params \cup E6Params \cup E1Params({4, 5}, Idx(Catches), Idx(Fins)) \cup E2Params({4, 5}) \cup E4Params({1, 2, 3}) \cup E1Params({1, 2, 3}, Idx(Catches), Idx(Fins)) \cup E3Params \cup E2Params({1, 2, 3})
 
 (* ---- C04: loops, exits, ladders, comprehensions ---- *)
 L123 == ListN(<<I(1), I(2), I(3)>>)
@@ -333,7 +335,7 @@ L5Progs == << Prog(<<For(<<"x">>, "values", SetN(<<SB, SC, SA>>), Log(Var("x")))
                      Log(SetN(<<I(10), I(9), I(100), I(-5), I(-10), I(2)>>))>>) >>
 L5Params == { <<"l5", k>> : k \in Idx(L5Progs) }
 
-LoopParams == C2Params \cup L4Params \cup L5Params \cup L1Params \cup L0Params \cup L2Params \cup L3Params \cup W1Params \cup IfParams \cup CpParams \cup McParams
+LoopParams(u) == C2Params \cup L4Params \cup L5Params \cup L1Params \cup L0Params \cup L2Params \cup L3Params \cup W1Params \cup IfParams \cup CpParams \cup McParams
 
 (* ---- C03: scoping and argument binding ---- *)
 \* <<"s1", s1, s2>>: who sees which x
@@ -494,7 +496,7 @@ S7Progs == <<
          Log(Call(Var("f"), << >>)), Log(Var("x"))>>) >>
 S7Params == { <<"s7", k>> : k \in Idx(S7Progs) }
 
-ScopeParams == S7Params \cup S6Params \cup S1Params \cup S2Params \cup S3Params \cup S4Params \cup S5Params \cup A1Params \cup A2Params \cup A3Params
+ScopeParams(u) == S7Params \cup S6Params \cup S1Params \cup S2Params \cup S3Params \cup S4Params \cup S5Params \cup A1Params \cup A2Params \cup A3Params
 
 Build(p) ==
   CASE p[1] = "e6" -> E6Progs[p[2]] [] p[1] = "e5" -> E5Build(p) [] p[1] = "e4" -> E4Build(p) [] p[1] = "e1" -> E1Build(p) [] p[1] = "e2" -> E2Build(p) [] p[1] = "e3" -> E3Build(p)
